@@ -141,6 +141,8 @@ def check_invs(I, lc, fr, name, extra_env=None):
         t = I.E.eval_spec(I, inv, fr, extra_env or {})
         I.st.oblige("%s::%s::%s.inv#%d" % (fr.finfo.qualname, name, lc["_label"], i), I.truthy(t))
     for tgt, expr in (lc.get("defs") or {}).items():
+        if _def_dropped(I, fr, lc, tgt):
+            continue
         cur = _read_def(I, fr, tgt)
         want = I.E.eval_spec(I, expr, fr, extra_env or {})
         I.st.oblige("%s::%s::%s.def(%s)" % (fr.finfo.qualname, name, lc["_label"], tgt), I.equal(cur, want))
@@ -153,8 +155,28 @@ def assume_invs(I, lc, fr, extra_env=None):
     # definitional invariants  target == expr : assumed by *assigning* the value of expr (evaluated in the havocked
     # state, in order) to the target, so that byte strings keep their rope structure; checked like any invariant
     for tgt, expr in (lc.get("defs") or {}).items():
+        if _def_dropped(I, fr, lc, tgt):
+            continue
         v = I.E.eval_spec(I, expr, fr, extra_env or {})
         _assign_def(I, fr, tgt, v)
+
+
+def _def_dropped(I, fr, lc, tgt):
+    """a definitional invariant about a plain local the function no longer has (the accumulator was renamed or given
+    another representation by a change): the clause cannot be stated, so it is left out and the fact is recorded - a
+    failed proof on such a tree counts as a violation only with a natively reproduced input (like any representation
+    change), otherwise as undecided"""
+    if tgt.startswith("ghost:") or "." in tgt:
+        return False
+    key = "_dropped_defs"
+    if tgt in lc.setdefault(key, set()):
+        return True
+    if tgt not in fr.locals and key + "_checked_" + tgt not in lc:
+        lc[key].add(tgt)
+        I.E.auto_fields.add("loop invariant names a local the function no longer has: %s in %s" % (tgt, fr.finfo.qualname))
+        return True
+    lc[key + "_checked_" + tgt] = True
+    return False
 
 
 def _assign_def(I, fr, tgt, v):
